@@ -72,3 +72,95 @@ def short(x, n=600):
 
 def instance_count(rrt):
     return len(rrt.frames)
+
+
+# ---------------------------------------------------------------------------
+# generic Tasklang execution with monitors
+
+
+def needs_observed_items(prog):
+    return bool(prog.get("flush_faults"))
+
+
+def execute(prog, how, pol, seed, monitors, rrt_exp=None, fresh_scheduler=True):
+    """Run one program once on asynq with the requested monitors installed.
+    Returns (rt, out, exp, rrt)."""
+    from . import harness, monitors as M
+
+    rt = harness.HarnessRT(prog, prio=pol, seed=seed)
+    book = None
+    if "resume" in monitors:
+        rt.resume_probes.append(M.resume_probe)
+    if "afterdone" in monitors:
+        rt.step_probes.append(M.step_after_done_probe)
+    if "active" in monitors:
+        rt.step_probes.append(M.active_task_probe)
+    if "quiescence" in monitors:
+        rt.before_probes.append(M.quiescence_probe)
+    if "flushbook" in monitors or "flushbook_prio" in monitors:
+        book = M.FlushBook(rt, "flushbook_prio" in monitors)
+        rt.before_probes.append(book.on_before)
+        rt.after_probes.append(book.on_after)
+    rt.book = book
+    out = rt.run(how, fresh_scheduler=fresh_scheduler)
+    if book is not None:
+        book.finish(rt)
+    if rrt_exp is not None and not needs_observed_items(prog):
+        exp, rrt = rrt_exp
+    else:
+        observed = None
+        if needs_observed_items(prog):
+            observed = dict(rt.item_done)
+        exp, rrt = ref.evaluate(prog, observed)
+    if "refeq" in monitors:
+        if out[:2] != exp[:2]:
+            rt.violation("root-outcome-differs-from-reference", {"expected": short(exp), "observed": short(out[:2])})
+        for d in compare_frames(rt, rrt):
+            rt.violation("task-received-differs-from-reference", {"task": d[0], "what": d[1], "expected": short(d[2]), "observed": short(d[3])})
+    if "identity" in monitors and out[0] == "exc":
+        e = out[2]
+        tag = getattr(e, "tag", None)
+        if tag is not None:
+            rt.n_identity_checks = getattr(rt, "n_identity_checks", 0) + 1
+            if rt.excs.get(tag) is not e:
+                rt.violation("escaping-exception-is-not-the-raised-instance", {"exc": lang.exc_desc(e)})
+    if "order" in monitors:
+        M.start_order_check(rt)
+    if "orphans" in monitors:
+        M.orphan_check(rt)
+    if "completion" in monitors:
+        M.completion_check(rt, rrt)
+    return rt, out, exp, rrt
+
+
+COUNTER_ATTRS = [
+    "n_resume_checks",
+    "n_exc_resumes",
+    "n_multi_fail",
+    "n_active_checks",
+    "n_flush_checks",
+    "n_item_checks",
+    "n_order_checks",
+    "n_orphans",
+    "n_completion_checks",
+    "n_identity_checks",
+    "model_disagreements",
+]
+
+
+def harvest(rt, c):
+    for a in COUNTER_ATTRS:
+        v = getattr(rt, a, 0)
+        if v:
+            c[a] = c.get(a, 0) + v
+    if rt.book is not None:
+        c["flush_decisions"] = c.get("flush_decisions", 0) + rt.book.decisions
+        c["flush_decisions_with_distinct_priorities"] = c.get("flush_decisions_with_distinct_priorities", 0) + rt.book.decisions_multi
+
+
+def new_result():
+    return {"evaluations": 0, "nontrivial": [], "counters": {}, "sets": {}, "violations": [], "faults": [], "samples": []}
+
+
+def mech_of(oracle):
+    return oracle
